@@ -29,7 +29,7 @@ var Pool = []Recipe{
 	r("3", false, false, ti(3)),
 	r("255", false, true, ti(255)),
 	r("256", true, true, ti(256)),
-	r("65536", true, true, ti(65536)),
+	r("65535", true, true, ti(65535)),
 	r("65537", false, true, ti(65537)),
 	r("2^31-1", false, true, ti(2147483647)),
 	r("2^31", true, true, ti(2147483648)),
@@ -50,7 +50,7 @@ var Pool = []Recipe{
 	r("()", true, true, psref.TS(nil)),
 	r("(abc)", true, false, psref.TS([]byte("abc"))),
 	r("<00ff80>", false, false, psref.TS([]byte{0, 255, 128})),
-	r("65536 string", false, true, ti(65536), tx("string")),
+	r("65535 string", false, true, ti(65535), tx("string")),
 	r("[]", true, true, tx("["), tx("]")),
 	r("[1 2 3]", true, false, tx("["), ti(1), ti(2), ti(3), tx("]")),
 	r("[(x) /n [7]]", false, false, tx("["), psref.TS([]byte("x")), tl("n"), tx("["), ti(7), tx("]"), tx("]")),
